@@ -75,7 +75,8 @@ class DetLoop(asyncio.BaseEventLoop):
         self.sched_seed = sched_seed
         self.iteration_cost = iteration_cost
         self.max_callbacks = max_callbacks
-        self.max_vtime = float("inf")
+        self.max_idle_vtime = float("inf")
+        self.last_event_vtime = 0.0
         self.callbacks_run = 0
         self.iterations = 0
         self.clock_jumps = 0
@@ -149,11 +150,12 @@ class DetLoop(asyncio.BaseEventLoop):
                 self.on_quiescent()
             if sched:
                 if sched[0]._when > self._vtime:
-                    if sched[0]._when > self.max_vtime and not self._draining:
-                        # timers keep the loop alive but the run is far beyond any time it can
-                        # legitimately need: in a real deployment this is a run that never returns
+                    if sched[0]._when > self.last_event_vtime + self.max_idle_vtime and not self._draining:
+                        # timers keep the loop alive, but nothing observable (no request, reply, log
+                        # line, ...) has happened for far longer than any delay of this run: in a real
+                        # deployment this is a run that polls for ever
                         self.livelocked = True
-                        raise Livelock(f"virtual time horizon of {self.max_vtime} s passed")
+                        raise Livelock(f"nothing happened for {self.max_idle_vtime} virtual seconds")
                     self._vtime = sched[0]._when
                     self.clock_jumps += 1
             elif self._draining:
